@@ -576,6 +576,33 @@ def rule7_recentre(ctx, views):
 QUSERS = ['myth_queue_push', 'myth_queue_pop', 'myth_queue_take', 'myth_queue_put', 'myth_queue_trypass', 'myth_queue_peek']
 
 
+def rule10_wsapi(ctx, fl):
+    ctx.doc('C02.10', 'custom work-stealing API forwarders: myth_wsapi_runqueue_push inserts its argument into the caller\'s run queue on '
+            'every path, myth_wsapi_runqueue_pop returns what myth_queue_pop returned, myth_wsapi_runqueue_pass returns the result of '
+            'myth_queue_trypass on the target\'s queue with its own argument')
+    m = ctx.ssa(NATIVE, fl)
+    f = ctx.need_fn(m, 'myth_wsapi_runqueue_push')
+    ps = [c for c in call_sites(f, 'myth_queue_push') if same_value(f, c.args[1], f.params[0]['id'])]
+    ctx.ob('C02.10', 'wsapi push: the thread handed in is inserted on every path', len(ps) == 1 and f.always_passes(f.entry_inst(), ps),
+           'a thread given to myth_wsapi_runqueue_push and not inserted is never run again', loc=f.loc)
+    g = ctx.need_fn(m, 'myth_wsapi_runqueue_pop')
+    pp = call_sites(g, 'myth_queue_pop')
+    rets = [r for r in g.exits() if r.ops]
+    ctx.ob('C02.10', 'wsapi pop: returns the popped thread', len(pp) == 1 and bool(rets) and all(same_value(g, r.ops[0], pp[0].id) for r in rets),
+           'the thread removed from the queue is the one handed to the caller', loc=g.loc)
+    h = ctx.need_fn(m, 'myth_wsapi_runqueue_pass')
+    tp = call_sites(h, 'myth_queue_trypass')
+    rets = [r for r in h.exits() if r.ops]
+    okp = len(tp) == 1 and same_value(h, tp[0].args[1], h.params[1]['id']) and bool(rets) and all(same_value(h, r.ops[0], tp[0].id) for r in rets)
+    if okp:
+        ix = [x for x in h.ap(tp[0].args[0]).steps if x[0] in ('p', 'i')]
+        okp = h.ap(tp[0].args[0]).fields[-1:] == ['myth_running_env.runnable_q'] and bool(ix) and isinstance(ix[0][1], str) and \
+            h.params[0]['id'] in h.sources(ix[0][1], through_arith=True)
+    ctx.ob('C02.10', 'wsapi pass: hands the thread to the target worker\'s queue and reports the outcome', okp,
+           'the caller keeps responsibility for the thread exactly when pass reports failure', loc=h.loc)
+    ctx.floor('C02.10', 3)
+
+
 def rule9_init(ctx, fl):
     ctx.doc('C02.9', 'initialiser completeness of the run queue: every field of myth_thread_queue that push / pop / take / put / '
             'trypass / peek read is written by myth_queue_init (analysed in a scratch unit that emits all of them together)')
@@ -592,6 +619,7 @@ def run(ctx):
     for fl in flavours(ctx):
         ctx.unit = fl
         rule9_init(ctx, fl)
+        rule10_wsapi(ctx, fl)
         stops = lib.SPIN_STOPS
         vn = ctx.view(NATIVE, roots=['myth_queue_push', 'myth_queue_pop', 'myth_queue_put', 'myth_queue_trypass',
                                      'myth_wsapi_runqueue_take', 'myth_wsapi_runqueue_peek'], stops=stops, flavour=fl)
@@ -614,6 +642,8 @@ WSQ = 'src/myth_wsqueue_func.h'
 NAT = 'src/myth_if_native.c'
 SCHED = 'src/myth_sched_func.h'
 MUTANTS = [
+    {'name': 'wsapi push drops the thread (sweep M0661)', 'expect': 'C02.10',
+     'edits': [('src/myth_if_native.c', "  myth_running_env_t env=myth_get_current_env();\n  myth_queue_push(&env->runnable_q,th);\n}", "  myth_running_env_t env=myth_get_current_env();\n  (void)env; (void)th;\n}")]},
     {'name': 'pop returns without reading the claimed slot (sweep M0449)', 'expect': 'C02.4',
      'edits': [(WSQ, "  if (base + 1 < top){\n    ret = q->ptr[top];", "  if (base + 1 < top){\n    ret = q->ptr[top + 1];")]},
     {'name': 'pop leaves top below base on an empty queue (sweep M0451)', 'expect': 'C02.4',
